@@ -266,6 +266,312 @@ pub fn run(tier: &str, seed: u64) -> Report {
     }
     report.count_n("schedules-run", (runs + 10) as u64);
   }
+  registry_schedules(&mut report, tier, &mut rng);
   batch.finish(&mut report, "C04");
   report
+}
+
+// ---------------------------------------------------------------------------------------------
+// registry worlds under schedules
+
+pub struct SchedRegLoader {
+  pub inner: crate::registry::RegLoader,
+  pub gate: Rc<RefCell<Gate>>,
+}
+
+impl SchedRegLoader {
+  fn gated<T: Unpin + 'static>(&self, v: T) -> Pin<Box<dyn Future<Output = T>>> {
+    let mut g = self.gate.borrow_mut();
+    let id = g.issued;
+    g.issued += 1;
+    g.outstanding.push(id);
+    Box::pin(Gated { id, gate: self.gate.clone(), value: Some(v) })
+  }
+}
+
+impl Loader for SchedRegLoader {
+  fn load(&self, specifier: &ModuleSpecifier, options: LoadOptions) -> LoadFuture {
+    let r = futures::executor::block_on(self.inner.load(specifier, options));
+    self.gated(r)
+  }
+  fn ensure_cached(&self, specifier: &ModuleSpecifier, options: LoadOptions) -> EnsureCachedFuture {
+    let r: Result<Option<CacheResponse>, _> = futures::executor::block_on(self.inner.ensure_cached(specifier, options));
+    self.gated(r)
+  }
+}
+
+/// what a registry build is observed by: serialised graph (modules, dependencies, redirects, package
+/// resolutions), error entries with referrers, lockfile writes, resolution events, set of loader calls
+pub fn run_reg_schedule(w: &crate::registry::RegWorld, choices: &[usize], spurious: usize) -> (RunOutcome, Vec<usize>) {
+  use crate::registry::*;
+  let gate = Rc::new(RefCell::new(Gate::default()));
+  let loader = SchedRegLoader { inner: RegLoader::new(w), gate: gate.clone() };
+  let mut graph = ModuleGraph::new(w.kind);
+  let roots: Vec<ModuleSpecifier> = w.roots.iter().map(|r| ModuleSpecifier::parse(r).unwrap()).collect();
+  let reporter = RecReporter { resolved: std::sync::Mutex::new(vec![]), calls: loader.inner.calls.clone() };
+  let mut locker = initial_locker(w);
+  let resolver = version_resolver(w);
+  let mut factors = vec![];
+  crate::watchdog::enter(w.describe());
+  let res = std::panic::catch_unwind(std::panic::AssertUnwindSafe(|| {
+    let waker = futures::task::noop_waker();
+    let mut cx = Context::from_waker(&waker);
+    let options = deno_graph::BuildOptions {
+      skip_dynamic_deps: w.skip_dynamic_deps,
+      executor: &InlineExecutor,
+      locker: locker.as_mut().map(|l| l as &mut dyn deno_graph::source::Locker),
+      jsr_version_resolver: std::borrow::Cow::Borrowed(&resolver),
+      passthrough_jsr_specifiers: w.passthrough,
+      prefer_cached_jsr_versions: w.prefer_cached,
+      reporter: Some(&reporter),
+      ..Default::default()
+    };
+    let mut fut = Box::pin(graph.build(roots, vec![], &loader, options));
+    let mut decision = 0usize;
+    let mut polls = 0usize;
+    loop {
+      polls += 1;
+      if polls > 20_000 {
+        return Some("nonterm");
+      }
+      match fut.as_mut().poll(&mut cx) {
+        Poll::Ready(()) => return None,
+        Poll::Pending => {
+          for _ in 0..spurious {
+            if fut.as_mut().poll(&mut cx).is_ready() {
+              return None;
+            }
+          }
+          let pick = {
+            let g = gate.borrow();
+            let open: Vec<usize> = g.outstanding.iter().copied().filter(|i| !g.released.contains(i)).collect();
+            if open.is_empty() {
+              return Some("deadlock");
+            }
+            factors.push(open.len());
+            let c = choices.get(decision).copied().unwrap_or(0);
+            decision += 1;
+            open[c % open.len()]
+          };
+          let waker = {
+            let mut g = gate.borrow_mut();
+            g.released.insert(pick);
+            g.wakers.remove(&pick)
+          };
+          if let Some(wk) = waker {
+            wk.wake();
+          }
+        }
+      }
+    }
+  }));
+  crate::watchdog::leave();
+  let outcome = match res {
+    Err(e) => {
+      let m = panic_message(e);
+      if m.contains(NONTERMINATION_MARKER) { RunOutcome::NonTermination } else { RunOutcome::Panic(m) }
+    }
+    Ok(Some("deadlock")) => RunOutcome::Deadlock,
+    Ok(Some(_)) => RunOutcome::NonTermination,
+    Ok(None) => {
+      let json = serde_json::to_string(&graph).unwrap();
+      let errors: Vec<String> = graph.module_errors().map(|e| e.to_string_with_range()).collect();
+      let mut writes: Vec<String> = locker.as_ref().map(|l| l.calls.clone()).unwrap_or_default();
+      writes.sort();
+      writes.dedup();
+      let events: Vec<String> = reporter.resolved.lock().unwrap().iter().map(|(_, r, n)| format!("{}=>{}", r, n)).collect();
+      let mut pk: Vec<String> = vec![];
+      for (nv, deps) in graph.packages.packages_with_deps() {
+        let mut d: Vec<String> = deps.map(|d| d.to_string()).collect();
+        d.sort();
+        pk.push(format!("{}:{:?}:{:?}", nv, graph.packages.package_exports(nv), d));
+      }
+      // sizes make an unfilled (empty) source visible
+      let sizes: Vec<String> = graph.modules().map(|m| format!("{}#{}", m.specifier(), match m { deno_graph::Module::Js(j) => j.source.text.len(), deno_graph::Module::Json(j) => j.source.text.len(), _ => 0 })).collect();
+      let shown = format!("writes={:?} events={:?} packages={:?} sizes={:?}", writes, events, pk, sizes);
+      RunOutcome::Done { shown, json, errors }
+    }
+  };
+  (outcome, factors)
+}
+
+/// a package with more matching versions than any fixed probing bound, one of them cached
+fn many_versions_world(n: usize, cached_one: usize) -> crate::registry::RegWorld {
+  use crate::registry::*;
+  let versions: Vec<RegVer> = (0..n)
+    .map(|i| RegVer {
+      version: format!("1.0.{}", i),
+      yanked: false,
+      created_day: None,
+      exports: ExportsDesc::Str("./mod.ts".into()),
+      files: vec![RegFile { path: "/mod.ts".into(), items: vec![], raw: None, manifest: ManifestEntry::Ok, fault: Fault::None, tampered_cache: false }],
+      mg: MgKind::None,
+      fault: Fault::None,
+      lockfile_checksum: None,
+    })
+    .collect();
+  let mut cached = std::collections::BTreeSet::new();
+  cached.insert(ver_meta_url("@s/a", &format!("1.0.{}", cached_one)));
+  RegWorld {
+    pkgs: vec![RegPkg { name: "@s/a".into(), versions, fault: Fault::None, stale: None }],
+    user: vec![UserFile { url: "file:///main.ts".into(), items: vec![crate::world::Item { form: Form::Namespace, text: "jsr:@s/a@1".into() }] }],
+    roots: vec!["file:///main.ts".into()],
+    kind: deno_graph::GraphKind::All,
+    prefer_cached: true,
+    passthrough: false,
+    skip_dynamic_deps: false,
+    cutoff_day: None,
+    excl: vec![],
+    excl_prefixes: vec![],
+    cached,
+    has_locker: false,
+    lock_manifests: vec![],
+  }
+}
+
+fn registry_schedules(report: &mut Report, tier: &str, rng: &mut Rng) {
+  use crate::registry::*;
+  // repeated runs with fresh hasher state: a registry map with many versions
+  for (n, c) in [(24usize, 3usize), (40, 17), (20, 0)] {
+    let w = many_versions_world(n, c);
+    let (first, _) = run_reg_schedule(&w, &[], 0);
+    let RunOutcome::Done { shown: s0, json: j0, .. } = first else {
+      report.fail("oracle", "build-did-not-finish-under-schedule", "many-versions world".into(), w.describe());
+      continue;
+    };
+    if !j0.contains(&format!("@s/a@1.0.{}", c)) {
+      report.fail("oracle", "graph-level-wrong-version-selected", format!("prefer-cached with only 1.0.{} cached among {} versions: {}", c, n, j0.chars().take(300).collect::<String>()), w.describe());
+    }
+    let reps = if tier == "thorough" { 200 } else { 30 };
+    for r in 0..reps {
+      let ch: Vec<usize> = (0..64).map(|_| rng.below(5)).collect();
+      let (o, _) = run_reg_schedule(&w, if r % 2 == 0 { &[] } else { &ch }, 0);
+      report.evaluations += 1;
+      match o {
+        RunOutcome::Done { shown, json, .. } => {
+          if shown != s0 || json != j0 {
+            report.fail("oracle", "result-differs-between-runs", format!("{} versions, 1.0.{} cached: run {} differs from the first run\n  first: {}\n  now:   {}", n, c, r, s0, shown), w.describe());
+            break;
+          }
+        }
+        other => report.fail("oracle", "build-did-not-finish-under-schedule", format!("{:?}", other).chars().take(200).collect(), w.describe()),
+      }
+    }
+    report.nontrivial.insert(format!("many-versions/{}", n));
+  }
+  let n = if tier == "thorough" { 1500 } else { 160 };
+  let cap = if tier == "thorough" { 300 } else { 40 };
+  for wi in 0..n {
+    let mut wr = rng.fork();
+    let cfg = RegCfg { faults: wi % 3 == 2, n_pkgs: 2, max_versions: 3, ..Default::default() };
+    let mut w = gen_reg_world(&mut wr, &cfg);
+    if wi % 2 == 0 {
+      // module information embedded, cold cache: package files arrive through deferred content loads
+      for p in w.pkgs.iter_mut() {
+        for v in p.versions.iter_mut() {
+          v.mg = MgKind::V2;
+        }
+      }
+      w.cached.retain(|u| u.ends_with("meta.json"));
+    }
+    if wi % 4 == 3 || wi % 4 == 1 {
+      // inside a package: a sibling imports a module with an attribute type that is not enabled,
+      // turning that module's entry into an error while its content load may be outstanding
+      let it = |form: Form, text: &str| crate::world::Item { form, text: text.to_string() };
+      for p in w.pkgs.iter_mut() {
+        for v in p.versions.iter_mut() {
+          if v.files.iter().any(|f| f.path == "/c.ts") {
+            continue;
+          }
+          let mk = |path: &str, items: Vec<crate::world::Item>| RegFile { path: path.into(), items, raw: None, manifest: ManifestEntry::Ok, fault: Fault::None, tampered_cache: false };
+          if !v.files.iter().any(|f| f.path == "/util.ts") {
+            v.files.push(mk("/util.ts", vec![]));
+          }
+          v.files.push(mk("/c.ts", vec![it(Form::With("text".into()), "./util.ts")]));
+          v.files.push(mk("/d.ts", vec![]));
+          v.files.push(mk("/e.ts", vec![]));
+          if let Some(m) = v.files.iter_mut().find(|f| f.path == "/mod.ts") {
+            m.items.insert(0, it(Form::Namespace, "./util.ts"));
+            m.items.push(it(Form::Namespace, "./c.ts"));
+            m.items.push(it(Form::Namespace, "./d.ts"));
+            m.items.push(it(Form::Namespace, "./e.ts"));
+          }
+        }
+      }
+    }
+    if wi % 4 == 1 {
+      // an entry overwritten by an error while its content load is outstanding
+      if let Some(u) = w.user.first_mut() {
+        u.items.push(crate::world::Item { form: Form::With("text".into()), text: "jsr:@s/a/sub".into() });
+        u.items.push(crate::world::Item { form: Form::Namespace, text: "jsr:@s/a/sub".into() });
+      }
+    }
+    let desc = json!({"registry_world": w.describe(), "world_index": wi});
+    let (first, factors) = run_reg_schedule(&w, &[], 0);
+    let (ref_shown, ref_json, ref_errors) = match first {
+      RunOutcome::Done { shown, json, errors } => (shown, json, errors),
+      other => {
+        report.fail("oracle", "build-did-not-finish-under-schedule", format!("registry world: {:?}", other).chars().take(200).collect(), desc.clone());
+        continue;
+      }
+    };
+    report.evaluations += 1;
+    let max_open = factors.iter().copied().max().unwrap_or(0);
+    report.count(&format!("registry:max-outstanding:{}", max_open.min(8)));
+    report.nontrivial.insert(format!("reg{}-open{}", wi, max_open));
+    let mut check = |outcome: RunOutcome, what: String, report: &mut Report| match outcome {
+      RunOutcome::Done { shown, json, errors } => {
+        if shown != ref_shown || json != ref_json || errors != ref_errors {
+          let which = if json != ref_json { "serialised graph" } else if errors != ref_errors { "error entries" } else { "lockfile writes / resolution events / package table / source sizes" };
+          report.fail(
+            "oracle",
+            "result-depends-on-completion-order",
+            format!("registry world, {}: {} differ from the reference run\n  reference: {}\n  this run:  {}", what, which, ref_shown, shown),
+            json!({"registry_world": w.describe(), "schedule": what, "reference_errors": ref_errors, "errors": errors}),
+          );
+        }
+      }
+      other => report.fail("oracle", "build-did-not-finish-under-schedule", format!("registry world, {}: {:?}", what, other).chars().take(300).collect(), desc.clone()),
+    };
+    let mut choices: Vec<usize> = vec![];
+    let mut runs = 0usize;
+    loop {
+      let (outcome, fs) = run_reg_schedule(&w, &choices, 0);
+      runs += 1;
+      report.evaluations += 1;
+      check(outcome, format!("choices {:?}", choices), report);
+      let mut v: Vec<usize> = (0..fs.len()).map(|k| choices.get(k).copied().unwrap_or(0) % fs[k].max(1)).collect();
+      let mut k = v.len();
+      let mut advanced = false;
+      while k > 0 {
+        k -= 1;
+        if v[k] + 1 < fs[k] {
+          v[k] += 1;
+          v.truncate(k + 1);
+          advanced = true;
+          break;
+        }
+      }
+      if !advanced || runs >= cap {
+        if !advanced {
+          report.count("registry:worlds-with-all-completion-orders-enumerated");
+        }
+        break;
+      }
+      choices = v;
+    }
+    for _ in 0..8 {
+      let ch: Vec<usize> = (0..96).map(|_| rng.below(7)).collect();
+      let sp = rng.below(3);
+      let (outcome, _) = run_reg_schedule(&w, &ch, sp);
+      report.evaluations += 1;
+      check(outcome, format!("random choices {:?}.., {} spurious polls", &ch[..8], sp), report);
+    }
+    for _ in 0..4 {
+      let (outcome, _) = run_reg_schedule(&w, &[], 0);
+      report.evaluations += 1;
+      check(outcome, "repeat of the reference schedule".into(), report);
+    }
+    report.count_n("registry:schedules-run", (runs + 12) as u64);
+  }
 }
